@@ -143,7 +143,7 @@ DEFAULT_ERR = {"divide": "warn", "over": "warn", "under": "ignore", "invalid": "
 # still seen by the correspondence with the model, i.e. at worst `no-failing-input-found`, and is counted below for information):
 # the value of pad / span / center / normalized, project_to_plane, triangle_area_2D, and how many distinct values `roots` returns.
 _BEYOND = {"pad/value", "pad/superset", "span/current-bounds", "center/current-bounds", "normalized/value", "project_to_plane/in-plane",
-           "area2/exact", "roots/count", "roots/distinct"}
+           "area2/exact", "roots/count", "roots/distinct", "norm/flattened-definition"}
 _BEYOND_SEEN = {}
 
 
@@ -425,6 +425,13 @@ def _run_hist(case, want_oracle):
                 else:
                     mon.watched += [(f"box{i}", bx) for i, bx in enumerate(boxes)]
                     pt = arrs[o[2]]; ex = exact[o[2]]
+                    shp = case.get("ptshape")
+                    if shp == "row" or (shp == "col" and len(ex) == 1):
+                        # representation family (blind C12-j): the same point as a (1,d) row / a (1,1) column - `pt.size == dim`, so the
+                        # size check accepts it; the values (hence every law) are those of the flat point
+                        pt = np.asarray(pt).reshape((1, -1) if shp == "row" else (-1, 1))
+                    else:
+                        shp = None
                     if k == "contains":
                         how, out = mon.call("AABB.contains_point", b.contains_point, (pt,))
                         res = ("1" if bool(out) else "0") if how == "return" else _map_exc(out)
@@ -432,6 +439,7 @@ def _run_hist(case, want_oracle):
                         how, out = mon.call("AABB.project", b.project, (pt,))
                         if how == "raise": res = _map_exc(out)
                         else:
+                            if shp: out = np.asarray(out).reshape(-1)
                             res = "V " + _fmt_vec(out)
                             if want_oracle and valid(b) and all(math.isfinite(float(x)) for x in out):
                                 lo, hi = bounds(b)
@@ -558,7 +566,23 @@ def _run_prim(case, want_oracle):
         return o_
     obs = None
     try:
-        if f == "nrmz":
+        if f == "normnd":
+            # norm / distance on (n,d) arrays against the definition on the FLATTENED array (docstring: "will be flattened"); informational
+            # (the statement speaks of the norms through the point-box distance: see the row/column point family of the histories)
+            rows = [[Fraction(c) for c in r] for r in A[0]]
+            X = np.array([[float(c) for c in r] for r in rows], dtype=float)
+            if A[2] == "dist":
+                how, out = mon.call("distance", g.distance, (np.zeros_like(X), X, A[1]))
+            else:
+                how, out = mon.call("norm", g.norm, (X, A[1]))
+            flat = [abs(c) for r in rows for c in r]
+            want = sum(flat) if A[1] == "l1" else max(flat) if A[1] == "linf" else math.sqrt(sum(c * c for c in flat))
+            if how == "raise": obs = _map_exc(out)
+            else:
+                obs = "ok"
+                if abs(float(out) - float(want)) > 1e-9 * (1 + float(want)):
+                    law("norm/flattened-definition", f"{A[2]} on an (n,d) array is not the {A[1]} norm of the flattened array", f"{float(out)} vs {float(want)}")
+        elif f == "nrmz":
             # Vec.normalize(which): documented to modify ITS OWN object; watched: a second array with the same values, numpy.geterr()
             vals = [float(Fraction(c)) for c in A[0]]
             v = Vec(list(vals))                       # a fresh array (Vec of a list copies): nothing of the caller is aliased
@@ -918,7 +942,7 @@ def nontrivial(case, obs):
 
 def classify(case, obs):
     if case["t"] == "box":
-        ks = ["hist:dim" + str(case["dim"]), "hist-arrays-as:" + _hist_rep(case)]
+        ks = ["hist:dim" + str(case["dim"]), "hist-arrays-as:" + _hist_rep(case), "hist-point-as:" + case.get("ptshape", "flat")]
         ops_ = [o[0] for o in case["ops"]]
         if any(a in ("inter", "union") and b.startswith("pad") for a, b in zip(ops_, ops_[1:])): ks.append("hist:pad-right-after-result")
         if any(a.startswith("pad") and b in ("span", "center", "empty") for a, b in zip(ops_, ops_[1:])): ks.append("hist:derived-quantity-after-pad")
@@ -1009,6 +1033,7 @@ def _gen_hist(rng, maxops):
         elif r < 0.94: ops.append(["get", rng.randrange(nb)])
         else: ops.append(["nrm", anyi()])
     c = {"t": "box", "dim": dim, "arrs": arrs, "ops": ops}
+    if rng.random() < 0.2: c["ptshape"] = "col" if (dim == 1 and rng.random() < 0.5) else "row"
     if rep != "float64": c["rep"] = rep
     return c
 
@@ -1027,6 +1052,9 @@ _SCALES = [-23, -20, -14, -7, 0, 0, 7, 14, 20]
 
 def _gen_prim(rng):
     scale = None
+    if rng.random() < 0.02:
+        n_, d_ = rng.randint(2, 4), rng.randint(1, 4)
+        return {"t": "prim", "f": "normnd", "args": [[_v(rng, d_, "gen") for _ in range(n_)], rng.choice(["l1", "linf", "l2"]), rng.choice(["norm", "dist"])]}
     if rng.random() < 0.03:
         return {"t": "prim", "f": "nrmz", "args": [_v(rng, rng.choice([2, 3, 3, 4])), rng.choice(["l2", "l2", "l1", "linf"])]}
     f = rng.choice(["cross", "det2", "det3", "rot2", "rotax", "circ", "isect", "pplane", "dseg", "area2", "angle3", "sangle", "cotan",
